@@ -83,6 +83,20 @@ CHECKS = {
         technique="TLA+ multi-step load/store machines under a faulty environment; scenario classes instantiated exhaustively on real blocks",
         engine="tlc+vh",
     ),
+    "C07": dict(
+        category="model_checking",
+        text="Selector.tla transcribes the selector language (compile rules, Interests / Explore / Match per clause, the "
+             "recursion continuation with edge replacement) and Traversal.tla is the walk as an explicit-stack machine "
+             "mirroring walk.go. TLC runs the machine on every (graph, selector) of the bounded catalogue, checks that visited "
+             "paths resolve to the visited nodes and that parents precede children, and emits the visit and load sequences; "
+             "the harness stores the blocks with real CIDs, builds the selector's data-model tree, compiles it and runs "
+             "WalkAdv and WalkMatching, comparing (path, reason, node) visit by visit and the loads.",
+        design_ref="DESIGN.md section 4, C07",
+        note="Selectors up to AST depth 2 exhaustively (depth 3 sampled in the thorough tier), 7 graphs of <= 4 blocks; "
+             "ExploreInterpretAs is outside this instance; trusted: TLC, harness.",
+        technique="TLA+ walk machine + selector semantics; TLC-computed visit sequences replayed against the real walk",
+        engine="tlc+vh",
+    ),
     "C12": dict(
         category="model_checking",
         text="Assembler.tla is the builder/assembler protocol as a state machine (one action per public call, the two "
@@ -95,6 +109,31 @@ CHECKS = {
              "trusted: TLC, the projection functions of harness/model (self-tested against a reference node).",
         technique="TLA+ protocol state machine, TLC-generated behaviours replayed into the real assemblers",
         engine="assembler",
+    ),
+    "C14": dict(
+        category="model_checking",
+        text="Traversal!Resolve specifies path resolution (map by key, list by index, links loaded on the way, failure when a "
+             "segment is missing or a scalar is reached early); TLC checks on every walk that each visited path resolves to "
+             "the visited node, checks Resolve against an independent existence predicate on probe paths, and checks the "
+             "string form (join / split) round-trips exactly for clean paths. The harness retains the Path objects handed to "
+             "the walk callbacks and resolves them after the walk with Get, Focus and stepwise lookups, and replays the "
+             "probes and the string cases.",
+        design_ref="DESIGN.md section 4, C14",
+        note="Rides on the C07 cases; bounded graphs and segment alphabet; trusted: TLC, harness.",
+        technique="TLA+ path-resolution operator checked on all walks; retained walk paths and probe paths replayed against Get/Focus/ParsePath",
+        engine="tlc+vh",
+    ),
+    "C15": dict(
+        category="model_checking",
+        text="Traversal.tla with the controls: node and link budgets, the start-at filter exactly as the recurse closure "
+             "applies it, visit-links-once, SkipMe. TLC runs the machine for every (graph, selector, control setting) and "
+             "emits restricted visit/load sequences and the budget error with its path; the harness runs the real walk with "
+             "that Config/Budget/loader, compares step by step, and independently re-checks the relation to the real "
+             "unrestricted walk.",
+        design_ref="DESIGN.md section 4, C15",
+        note="Controls one at a time, no preloader; bounded graphs; trusted: TLC, harness.",
+        technique="TLA+ walk machine with traversal controls; TLC-generated restricted walks replayed + metamorphic re-check on real walks",
+        engine="tlc+vh",
     ),
     "C17": dict(
         category="model_checking",
